@@ -150,6 +150,43 @@ class _NoFit(Exception):
     pass
 
 
+def _returns_to_breaks(body: List[ast.stmt]) -> Optional[List[ast.stmt]]:
+    """a helper called for its effects whose last statement is a loop and whose only returns are bare `return`s directly inside
+    that loop (not in a nested loop or function): every such return leaves the loop and thereby the helper, i.e. it is a `break`
+    (the loop has no else arm).  Returns the rewritten body, or None when the helper is not of that form."""
+    if not body or not isinstance(body[-1], (ast.While, ast.For)) or body[-1].orelse:
+        return None
+    loop = body[-1]
+    if any(_has_return([st]) for st in body[:-1]):
+        return None
+    ok = True
+
+    def go(stmts, in_inner_loop):
+        nonlocal ok
+        out = []
+        for st in stmts:
+            if isinstance(st, ast.Return):
+                if st.value is not None and not (isinstance(st.value, ast.Constant) and st.value.value is None) or in_inner_loop:
+                    ok = False
+                out.append(ast.copy_location(ast.Break(), st))
+                continue
+            if isinstance(st, (ast.FunctionDef, ast.AsyncFunctionDef, ast.ClassDef)):
+                out.append(st)
+                continue
+            inner = in_inner_loop or isinstance(st, (ast.For, ast.While))
+            for fld in ("body", "orelse", "finalbody"):
+                v = getattr(st, fld, None)
+                if isinstance(v, list) and v and isinstance(v[0], ast.stmt):
+                    setattr(st, fld, go(v, inner))
+            if isinstance(st, ast.Try):
+                for h in st.handlers:
+                    h.body = go(h.body, inner)
+            out.append(st)
+        return out
+    loop.body = go(loop.body, False)
+    return body if ok else None
+
+
 def _elim_returns(stmts: List[ast.stmt], result) -> List[ast.stmt]:
     """the block with every `return v` replaced by ``result(v, at)`` (a list of statements) and the statements a return would
     have skipped moved into the else arms; returns inside loops / try are not handled (raises _NoFit).  The value of a helper
@@ -301,6 +338,8 @@ class _Inliner:
                     return None
                 if _falls_through(body):
                     body = body + [ast.copy_location(ast.Return(value=ast.Constant(value=None)), call)]
+            elif mode == "stmt" and _returns_to_breaks([_dc(x) for x in body]) is not None:
+                body = _returns_to_breaks(body)
             elif mode in ("value", "stmt"):
                 if any(isinstance(n, (ast.FunctionDef, ast.AsyncFunctionDef, ast.Lambda)) and _has_return([n])
                        for st_ in body for n in ast.walk(st_)):
